@@ -300,13 +300,14 @@ Fixpoint has_short_section (fuel : nat) (s : bytes) : bool :=
 Section Resume.
   Variable hdrdec : bytes -> option (list bytes * N).
 
-  (* mirrors Store.resume: version probe with the DEFAULT header limit (ResumableVersion calls
-     ReadVersion without options), inner header with the configured one, then the rescan *)
+  (* mirrors Store.resume: version probe and inner header under the configured header limit (repaired:
+     ResumableVersion used to call ReadVersion without the caller's options;
+     notes/fixes/C09-resume-version-probe-limit.patch), then the rescan *)
   Definition resume_allocs (k : skind) (can_truncate : bool) (o : wopts) (roots : list bytes)
              (file : bytes) (faults : list (option N)) : list N :=
     let dv0 := mkdev file [] faults in
-    ld_read_allocs false default_maxh file ++
-    match read_header hdrdec default_maxh file with
+    ld_read_allocs false (w_maxh o) file ++
+    match read_header hdrdec (w_maxh o) file with
     | Err _ => []
     | Ok (_, ver, _, _) =>
       if negb (((ver =? 1) && w_v1 o) || ((ver =? 2) && negb (w_v1 o))) then [] else
